@@ -559,8 +559,7 @@ fn pread(rng: &mut Rng, ctx: &mut Ctx) {
         let (r, tags) = loop { let kk = k + (rng.next() % 3) as usize * 1000; let (r, t) = gen_replay(rng, kk, &go); if !slots_of(&r.start_block).is_empty() { break (r, t); } };
         let b = encode(&r);
         let a = match std::panic::catch_unwind(|| to_slpp(&b, None, k % 2 == 0)) { Ok(Ok(a)) => a, _ => continue };
-        let skipf = (k / 3) % 2 == 1; // every other archive is walked with the skip-frames option
-        let full = match peppi::io::peppi::read(Cursor::new(&a), Some(&peppi::io::peppi::de::Opts { skip_frames: skipf })) { Ok(g) => game_sig(&g), Err(_) => continue };
+        let full = match peppi::io::peppi::read(Cursor::new(&a), None) { Ok(g) => game_sig(&g), Err(_) => continue };
         let es = tar_entries(&a);
         let mut c = Case::new(format!("pread {} {}", k, es.len()), String::new()); c.tags = tags;
         if k % 2 == 0 {
